@@ -12,14 +12,69 @@ SPEC = dict(
     harness="c16.cpp",
     translators=[c01_typecodes, c16_names],
     theorems=[
+        # tables translated from strprinter.cpp / parser.cpp / parser.yy on every run
         "SymVerif.C16.names_roundtrip",
         "SymVerif.C16.names_not_parser_known",
+        "SymVerif.C16.precEnum_expected",
+        "SymVerif.C16.printer_constants",
+        # the syntactic round trip
+        "SymVerif.C16.render_eq",
+        "SymVerif.C16.paren_sound",
+        "SymVerif.C16.parse_flat",
+        "SymVerif.C16.roundtrip_syntactic",
+        "SymVerif.C16.neg_infty_pow_witness",
+        # printing is a function of the value
+        "SymVerif.C16.str_congr_partial",
+        "SymVerif.C16.signed_zero_witness",
+        "SymVerif.C16.C16_congr_full_false",
     ],
-    rule="",
-    not_covered=[],
-    assumptions=[],
-    level_text="",
-    level_note="",
-    technique="",
-    partial=[],
+    rule="one op = one expression (canonical dump of an object built through the public API) printed by the real "
+         "StrPrinter and by the model; distinct = distinct op lines; non-trivial = all. Tags: number / number-coef / "
+         "number-base / number-exp / number-arg (integers, multi-limb integers, rationals, Gaussian rationals, doubles, "
+         "complex doubles alone and in every operand position), double / double-boundary (bit patterns: random, short "
+         "decimals, around powers of ten, 14-17 digit integers, the 1e-5 and 1e15 switches, ties at the 15th digit, "
+         "subnormals, largest), arith / arith-float (random trees over the public constructors, depth <= 6), pow / "
+         "pow-nested / pow-den / pow-neg (negative, rational, complex, float bases and exponents, nested powers, exp and "
+         "sqrt forms), mul-den (numerator/denominator split), function (every printed function class the parser knows), "
+         "function-kd-lc, relational, boolean, symbol-name, constant (pi E EulerGamma Catalan GoldenRatio oo -oo zoo nan), "
+         "signed-zero / pair (explicit eq pairs), no-parser-name / reserved-name (print only), piecewise (oracle only)",
+    not_covered=[
+        "the tokenizer: the theorems start from the token list; the text of the tokens is what is compared with str(e)",
+        "that the smart constructors applied along the parsed tree rebuild an eq expression (C04/C07): checked on the "
+        "real library by the round-trip oracle, not proved",
+        "Piecewise, sets, Contains, Derivative, Subs, polynomials, series, matrices: printing not modelled "
+        "(Piecewise: oracle only); the set and interval texts are not in the parser's language",
+        "symbols / function symbols whose name the parser reads as something else (e, E, I, pi, oo, inf, zoo, nan, True, "
+        "False, EulerGamma, Catalan, GoldenRatio; function symbols named like a parser function): printed, not round-tripped",
+        "classes the parser has no name for (Truncate, Conjugate, UnevaluatedExpr): printed, not round-tripped",
+        "non-finite doubles (print as inf.0 / -nan.0, not parseable), the double -0.0, complex doubles with a zero part "
+        "(re-parse to an exact 0 or flip the sign of the zero): print correspondence only",
+        "a relational as operand of a relational (`z == x == y` re-parses with the other grouping)",
+        "RealMPFR / ComplexMPC (library not configured with MPFR/MPC)",
+    ],
+    assumptions=[
+        "std::ostream << double with precision 15 prints the correctly rounded %.15g text (glibc)",
+        "the iteration order of Mul dictionaries / And-Or-Xor containers is RCPBasicKeyLess as modelled by "
+        "Expr.norm (C01/C02 correspondence); PrinterBasicCmp is a strict weak order on the keys of a sum (C02)",
+    ],
+    level_text="Machine-checked proof (Lean 4) over an executable model of StrPrinter that reproduces str(e) character "
+               "by character: for every printable expression the tree the printer lays out is well-parenthesised "
+               "(paren_sound), and a precedence-climbing parser driven by the %left/%right table of parser.yy re-reads "
+               "the printed tokens as exactly that tree (roundtrip_syntactic); every printed function name of a "
+               "parser-known class is read back as that class (names_roundtrip, by decide on the translated tables); eq "
+               "model objects print identically (str_congr_partial). The model is tied to the C++ by differential "
+               "execution on generated expressions plus an independent oracle on the real library "
+               "(eq(parse(str(e)), e), floats to 15 digits; eq expressions built along other paths print identically).",
+    level_note="roundtrip_syntactic is stated for every sufficiently large fuel of the model parser (fuel is an artefact "
+               "of the executable definition; the driver runs it with 4*tokens+8 and checks the conclusion on every "
+               "input). The step from the parsed tree to an eq expression is not proved.",
+    technique="two-stage printer model (layout with explicit parentheses, decision-free flattening); binding-power "
+              "characterisation WP of trees that survive re-parsing; induction over trees for the parser (fuel "
+              "monotonicity + loop invariant), induction over expressions for the printer's decisions; decide over "
+              "translated name/precedence tables; exact decimal conversion of doubles",
+    partial=[
+        dict(full="SymVerif.C16.C16_congr_full", proved="SymVerif.C16.str_congr_partial",
+             excluded="noSignedZero / noNaN (a double -0.0 or NaN anywhere: eq(0.0,-0.0) holds and the texts differ, "
+                      "negation proved in C16_congr_full_false)"),
+    ],
 )
